@@ -291,6 +291,13 @@ func runOnce(runID int, seed int64, restarts bool) (tr.M, error) {
 	for !done() && time.Now().Before(deadline) {
 		time.Sleep(20 * time.Millisecond)
 	}
+	if !done() {
+		// not there after 25 s: give a loaded machine more time before calling it a loss (up to 90 s in all)
+		late := time.Now().Add(65 * time.Second)
+		for !done() && time.Now().Before(late) {
+			time.Sleep(50 * time.Millisecond)
+		}
+	}
 	converged := done()
 	if converged {
 		time.Sleep(1500 * time.Millisecond) // anything delivered twice shows up now
